@@ -494,24 +494,26 @@ def run(ctx):
                 if v not in arms:
                     continue
                 region = C.reach(f, [arms[v]], stop_blocks=hdrs)
-                sw = [s for s in cond_switches(f, lambda e: W.field_of(e, GOPT, "literal_separator"), eb) if s[0] in region]
-                if not sw:
-                    r.bad("sep|" + v, "Token::%s is translated without consulting literal_separator" % v, fn=f, construct=v)
-                    continue
+                # value table over options.literal_separator: the text pushed in this arm (chosen in the arm, or before the loop)
+                from ..flow import operand_at as _oat
                 res = {}
-                for pol, edge in ((True, sw[0][1]), (False, sw[0][2])):
-                    reg = Sccp(f, stop_blocks=hdrs).run([(edge[1], {})]).exec_blocks
-                    strs = []
+                for ls in (0, 1):
+                    def fm(owner, name, ls=ls):
+                        return I(ls) if owner == GOPT and name == "literal_separator" else None
+                    sx = Sccp(f, field_model=fm).run([(0, {})])
+                    vals = set()
                     for c in f.calls():
-                        if c.bb in reg and c.path.endswith("String::push_str"):
-                            e = eb.operand(c.args[1])
-                            strs += [str(x[2]) for x in walk(e) if x.k == "const" and x[2]]
-                    res[pol] = strs[:1]
-                if res[True] == ['"%s"' % sep] and res[False] == ['"%s"' % nosep]:
+                        if c.bb in region and c.bb in sx.exec_blocks and c.path.endswith("String::push_str"):
+                            v_ = _oat(sx, c.bb, None, c.args[1])
+                            vals.add(v_[1] if v_ is not None and v_[0] == "str" else "?")
+                    res[ls] = sorted(vals)
+                if res[1] == ['"%s"' % sep] and res[0] == ['"%s"' % nosep]:
                     r.ok("sep|" + v, "%s → %s under literal_separator else %s" % (v, sep, nosep), fn=f)
+                elif res[0] == res[1]:
+                    r.bad("sep|" + v, "Token::%s is translated without consulting literal_separator" % v, fn=f, construct=v)
                 else:
                     r.bad("sep|" + v, "Token::%s translates to %s under literal_separator and %s otherwise (specified %s / %s)"
-                          % (v, res[True], res[False], sep, nosep), fn=f, construct=v)
+                          % (v, res[1], res[0], sep, nosep), fn=f, construct=v)
             # a negated class is "anything but …": under literal_separator that must not include '/' (git's wildmatch;
             # the same reason `*`/`?` become [^/] forms). An explicit `[/]` stays a deliberate difference (tests matchslash4).
             if "Class" in arms:
